@@ -140,7 +140,7 @@ func runBcast(c *bcastCase) (v *hx.Violation) {
 
 func checkC14(c *hx.Checker) {
 	c.Rule = "all ordered pairs of shapes of Box(rank 0..4, extents {1,2,3}) for MultidirectionalBroadcast and UnidirectionalBroadcast, int64 fill = flat index + 1; " +
-		"extents {1,2,3,4} on rank<=4; thorough: extents {1..5} on rank<=4; all 14 dtypes on the rank<=3 extents {1,2} sub-box; all ordered pairs of 11 larger shapes (up to 5155 elements, odd counts); every case is followed by a second request on the same source tensor objects after their contents were overwritten in place. " +
+		"extents {1,2,3,4} on rank<=4; thorough: extents {1..5} on rank<=4; all 14 dtypes on the rank<=3 extents {1,2} sub-box; 6 shapes of rank 5 and 6 against every shape of rank <= 2 and against each other (rank differences up to 6); all ordered pairs of 11 larger shapes (up to 5155 elements, odd counts); every case is followed by a second request on the same source tensor objects after their contents were overwritten in place. " +
 		"non-trivial = at least one axis of one operand is stretched or padded (shapes differ); distinct by (fn,dtype,shapeA,shapeB)"
 	c.Assumptions = []string{"reference = right-aligned broadcasting written as index arithmetic (ref.BroadcastTo)", "complex/string elements are opaque tags (only moved, never computed on)"}
 	type job struct {
@@ -172,6 +172,12 @@ func checkC14(c *hx.Checker) {
 			add(dt, sub, sub)
 		}
 	}
+	// ranks 5 and 6 (rank differences up to 6) against every shape of rank <= 2 and against each other
+	hi := [][]int{{2, 1, 3, 1, 2}, {1, 1, 1, 1, 2}, {2, 3, 1, 2, 1}, {1, 2, 1, 1, 3, 2}, {2, 1, 1, 1, 1, 1}, {1, 1, 1, 1, 1, 1}}
+	lo := ref.Box(0, 2, []int{1, 2, 3})
+	add(ref.I64, hi, lo)
+	add(ref.I64, lo, hi)
+	add(ref.I64, hi, hi)
 	// larger shapes: all ordered pairs
 	big := [][]int{{5, 1, 7}, {1, 6, 1}, {7}, {2, 5, 1, 7}, {6, 7}, {5, 6, 7}, {1, 1, 1, 1, 8}, {1, 1031}, {5, 1}, {4099}, {3, 1, 1367}}
 	add(ref.F32, big, big)
